@@ -74,6 +74,7 @@ THEOREMS = [
     "Verif.C17.centroid_true_centre",
     "Verif.C17.centroid_window_mean",
     "Verif.C17.centroid_refinement_fills_span",
+    "Verif.C17.centroid_settled_offset",
 ]
 RULE = (
     "corpus (F4: one single-node track, three delimiters; F8: kbp-calibrated and uncalibrated kymograph saved with "
@@ -94,12 +95,18 @@ RULE = (
     "edges x every overlap strategy x refine_missing_frames on/off x centroid with/without bias correction, plus a seeded "
     "random stream; a lone such spot must be returned within 0.05 pixel (centroid: bound of the missing tail) / 0.25 "
     "pixel (Gaussian: optimizer termination on a clipped window; worst seen on the unchanged library 0.09). Non-trivial: round trip re-imported >= 1 track; program: at least one operation changed the group or was refused; "
-    "refinement: a track with a gap or >= 2 tracks or a lone spot next to an image edge; %.6e: value with more than 7 significant digits."
+    "refinement: a track with a gap or >= 2 tracks or a lone spot next to an image edge; %.6e: value with more than 7 significant digits. "
+    "Deepening round D: every round trip also compares the title line, the file cell by cell, the import through titles and a "
+    "second save/import; header variants (21 hand-written layouts x 3 delimiters + random); sample_from_image on every quarter "
+    "pixel of a 6-pixel line x widths 0/1/2/5 x both origins; centroid refinement without bias correction on spot images "
+    "(interior / next to an edge) and random photon-count images, coordinates kept 0.003-0.04 pixel away from rounding ties; "
+    "refinement applied twice; small scopes for split->merge, interpolate twice, filter twice."
 )
 TRUSTED = [
     "np.savetxt / np.loadtxt / %.18e: the text round trip of a double is exact (asserted at relative 1e-15 by the oracle); "
-    "the CSV file is modelled as named columns (header parsing by title is checked by the oracle on the real file only)",
-    "the numerical estimators (scipy.signal.convolve2d centroid, scipy.optimize Gaussian MLE) are parameters of the model; "
+    "the delimiter handling of np.savetxt / np.loadtxt is trusted; version line, titles and the look-up by title are modelled (CsvFile) and tied",
+    "the centroid estimator without bias correction is modelled (zero-padded convolutions, pixel walk) and tied at 1e-9; the bias-corrected "
+    "centroid (unbiased_centroid, the default) and the scipy.optimize Gaussian MLE stay parameters of the model; "
     "their sub-pixel accuracy on noise-free spots is explored by the oracle with stated tolerances (5e-3 pixel), not proved",
     "exact rationals stand for the doubles of the code; float rounding of products/quotients is absorbed by the stated "
     "tolerances (round trip 1e-15 relative, editing 1e-9·scale), decisions on floats keep a margin (see ASSUMPTIONS)",
@@ -1393,6 +1400,9 @@ def hdr_case(variant, base, delim, stream):
     """base rows [idx, t, c, cnt, md] -> cells under the variant's titles"""
     version, cols, expect = HDR_VARIANTS[variant]
     lt, px = 0.125, 0.1
+    # minimum durations with at most seven significant digits: when a refactoring leaves the six-decimal CSV column as
+    # the only way to observe them (builders_tracks.MD_LOSSY) the observation is still exact
+    base = [[r[0], r[1], r[2], r[3], float("%.6e" % r[4])] for r in base]
     if variant == "non-integer-time":
         base = [[r[0], r[1] + 0.5, r[2], r[3], r[4]] for r in base]
     val = {"idx": lambda r: float(r[0]), "t": lambda r: float(r[1]), "c": lambda r: r[2], "sec": lambda r: r[1] * lt, "pos": lambda r: r[2] * px,
